@@ -889,6 +889,8 @@ def complete_site(prog, cg, func, s):
         break
     if not changed:
         return s
+    while cur.get('kind') in _UP_WRAPPERS and len(children(cur)) == 1:
+        cur = children(cur)[0]          # the outermost operator / call itself, not a wrapper around it
     fs = FullSite()
     fs.node = cur
     fs.db = s.db
